@@ -10,18 +10,22 @@ PROP = "C05"
 GEN = ["Handlers"]
 VO = ["Properties/C05.vo", "Extract/D_Client.vo", "Extract/D_Server.vo"]
 MODULE = "Properties.C05"
-THEOREMS = ["c05_store_partial", "c05_delete_partial", "c05_touch_partial", "c05_flush_partial", "c05_arith_partial", "c05_noreply_effect", "c05_reply_iff"]
+THEOREMS = ["c05_store_partial", "c05_delete_partial", "c05_touch_partial", "c05_flush_partial", "c05_arith_partial", "c05_noreply_effect", "c05_reply_iff",
+            "c05_e2e_delete", "c05_e2e_touch", "c05_e2e_flush", "c05_e2e_arith", "c05_e2e_store"]
 DRIVER = "D_Client"
-TECHNIQUE = ("Coq proof (partial): a specification server (in-memory map with expiry and cas versions) and, for every state of it, "
-             "the client's reading of the reply line equals the documented result of what the server did, for all single-line "
-             "commands; the end-to-end composition and retrievals are covered by differential runs against an independent "
-             "abstract-map oracle")
+TECHNIQUE = ("Coq proof: a specification server (in-memory map with expiry and cas versions); for every state of it the client's "
+             "reading of the reply line is the documented result of what the server did; end to end on the Client model (Hoare "
+             "logic, exact consumption of the reply) for every one-command operation; retrievals, cas and multi-key operations "
+             "covered by differential runs against an independent abstract-map oracle")
 LEVEL_TEXT = ("c05_store/delete/touch/flush/arith_partial: for EVERY server state (so after every history and clock advance) and all "
               "arguments, the line Spec/Server.v answers is accepted by the client's reply table for that verb and is read as the "
               "documented value (True/False/None, the new counter, MemcacheClientError for a non-numeric item); c05_noreply_effect, "
-              "c05_reply_iff: noreply never changes the effect and a reply is sent exactly when the command does not say noreply. "
-              "PARTIAL: retrievals (C04) and the composition 'run_op = send, read a line per command, apply this reading' are "
-              "checked by the differential runs, not proved end to end.")
+              "c05_reply_iff: noreply never changes the effect and a reply is sent exactly when the command does not say noreply; "
+              "c05_e2e_delete/touch/flush/arith/store: on a connected client with nothing pending, a fault-free transport and "
+              "the specification server as peer, run_op of set/add/replace/append/prepend (one key), delete, incr, decr, touch, "
+              "flush_all returns exactly the documented result, advances the server by exactly that command and leaves nothing "
+              "unread -- for every server state, key, value and argument, hence along every history of such calls. PARTIAL: "
+              "retrievals (C04), cas, multi-key operations and calls that reconnect first are checked, not proved end to end.")
 LEVEL_NOTE = ("Trusted: Coq kernel; Spec/Server.v as the reading of protocol.txt (compared with harness/refserver.py on every run); "
               "the hand model's correspondence with base.py. No axioms.")
 TRUSTED = ["Coq 8.16.1 kernel; no axioms",
@@ -358,11 +362,18 @@ def search(ctx):
     found = []
     n = 0
     cfgs = [dict(tcp=False, prefix=p, default_noreply=dn, ignore_exc=False) for p in (b"", b"p:") for dn in (False, True)]
-    for i in range(400 if ctx.quick else 6000):
+    # expiry-changing operations observed after the clock moves: (initial ttl, new ttl, seconds elapsed)
+    targeted = []
+    for ret in (lambda e: (5, b"a", e, None), lambda e: (6, b"a", e, None, None), lambda e: (13, b"a", e, False), lambda e: (13, b"a", e, True)):
+        for t0, e, d in ((3, 50, 10), (50, 2, 5), (0, 3, 5), (3, 0, 10), (5, 5, 3), (100, -1, 0)):
+            for obs in ((3, b"a", b"dflt"), (4, b"a", None, None), (7, False, [b"a", b"b"]), (0, 1, b"a", b"new", 0, False, None), (11, b"a", 1, False), (9, b"a", False)):
+                targeted.append([(0, 0, b"a", b"5", t0, False, None), ret(e), ("tick", d), obs, (3, b"a", None)])
+    nt = len(targeted)
+    for i in range(nt + (400 if ctx.quick else 6000)):
         c = cfgs[i % 4]
-        ops = random_history(rng, rng.randrange(3, 14))
+        ops = targeted[i] if i < nt else random_history(rng, rng.randrange(3, 14))
         for stack in ("Client", "PooledClient", "HashClient"):
-            if stack != "Client" and i % 4:
+            if stack != "Client" and i % 4 and i >= nt:
                 continue
             n += 1
             r = run_history(stack, c, ops)
